@@ -259,8 +259,18 @@ impl Server {
             return;
         }
 
+        // A pending connection becomes active as soon as its ACK arrives, so pending connections
+        // count towards the limit on active connections as well. Otherwise any number of
+        // handshakes begun while there was still room would all be promoted.
+        let active_or_pending = self.clients.values().filter(|client| {
+            match client.borrow().state {
+                remote_client::State::Pending(_) | remote_client::State::Active(_) => true,
+                _ => false,
+            }
+        }).count();
+
         if self.clients.len() >= self.config.max_total_connections
-            && self.active_clients.len() >= self.config.max_active_connections
+            || active_or_pending >= self.config.max_active_connections
         {
             // No room in the inn
             let reply = frame::Frame::HandshakeErrorFrame(frame::HandshakeErrorFrame {
